@@ -31,6 +31,12 @@
    all depths); Remove.Visit edits a volume's list and then descends into the
    files that are left — a deleted file takes its nested volumes with it, they
    are not visited, and come back untouched when the deletion is undone.
+   The root handed to Run may be a flash image, a BIOS region, a section, a
+   file or a firmware volume itself: Find.Visit and Remove.Visit treat every
+   node that is not a volume (resp. a file) by descending, and Run starts with
+   f.Apply(v), i.e. on the root itself, so the model's image is the list of
+   volumes met first below (or at) the root; the executor runs all these root
+   kinds, including the volume node of a tree produced by uefi.Parse.
    [f_id] stands for the *uefi.File pointer: Remove.Visit compares pointers, and a pad file made by
    CreatePadFile is a new object (fresh id from the counter [nx]).  GUIDs are
    numbers (the 16 bytes read big-endian).
